@@ -6,12 +6,19 @@ package main
 
 import (
 	"fmt"
+	"go/types"
 	"os"
 	"strconv"
 
 	"verifharness/compa"
 	"verifharness/vh"
 )
+
+type failingImporter struct{}
+
+func (failingImporter) Import(path string) (*types.Package, error) {
+	return nil, fmt.Errorf("no such package %s", path)
+}
 
 func main() {
 	switch os.Args[1] {
@@ -53,6 +60,30 @@ func main() {
 			}
 		}
 		fmt.Println("bad:", bad, "of", n)
+	case "recorder":
+		// replay of C07_recorder_defer_unprotected on the real code: an importer that cannot find
+		// "fmt" makes gogen.NewPackage panic; with a Recorder configured the deferred rec.Complete runs
+		// after the recover with p == nil
+		fs := compa.Files{"main.xgo": "echo 1\n"}
+		p := compa.Parse(fs)
+		func() {
+			defer func() {
+				if r := recover(); r != nil {
+					fmt.Println("ESCAPED:", compa.PanicKey(r))
+				}
+			}()
+			_, err := compa.CompileWith(p.Fset, compa.MainPkg(p.Pkgs), failingImporter{}, true)
+			fmt.Println("returned err:", err)
+		}()
+		func() {
+			defer func() {
+				if r := recover(); r != nil {
+					fmt.Println("ESCAPED (no recorder):", compa.PanicKey(r))
+				}
+			}()
+			_, err := compa.CompileWith(p.Fset, compa.MainPkg(p.Pkgs), failingImporter{}, false)
+			fmt.Println("returned err (no recorder):", err)
+		}()
 	case "file":
 		src, _ := os.ReadFile(os.Args[3])
 		fs := compa.Files{os.Args[2]: string(src)}
